@@ -18,3 +18,5 @@ package messages
 //@   method CheckSumTag() (res string):
 //@     pure
 //@     ensures res == tagCS(self) && isdigits(res)
+//@   method Items() (res fix.Items):
+//@     ensures wfSeq(res)
